@@ -172,6 +172,7 @@ class Executor(object):
         self._for_covers = {}
         self._loops_done = set()
         self.stats = dict(feasibility_checks=0, paths=0)
+        self.borrowed = {}                    # id(value object) -> description: arrays the caller of the verified function still holds
 
     # ------------------------------------------------------------------------------------------
     # helpers
@@ -1495,7 +1496,14 @@ class Executor(object):
             if isinstance(vals, Raised):
                 out.append((s, ("raise", vals.exc)))
                 continue
+            if id(vals[0]) in self.borrowed and isinstance(node.target, (ast.Name, ast.Attribute)):
+                # `x op= v` on a numpy array updates the array object in place: if that object is one the caller still holds (an argument
+                # that was never copied) the caller's value changes behind its back -- ownership clause of the harness that marked it
+                self.reg.ground("%s/%s/no-in-place-update-of-a-caller-owned-array@L%d" % (self.prop, ctx.tag, node.lineno), "frame", ctx.tag, False, backend="symbolic-exec (object identity)",
+                                detail="`%s` updates in place the array object %s" % (ast.unparse(node)[:60], self.borrowed[id(vals[0])][0]))
             nv = self.binop(node.op, vals[0], vals[1], s, ctx, node)
+            if id(vals[0]) in self.borrowed and nv is not None:
+                self.borrowed[id(nv)] = (self.borrowed[id(vals[0])][0], nv)          # an in-place update keeps the array object
             out.extend(self.assign_target(node.target, nv, s, ctx))
         return out
 
@@ -1826,7 +1834,11 @@ class Executor(object):
         mods = _modified_names(node.body + node.orelse) | set(spec.get("havoc", []))
         for n in sorted(mods):
             if n in st.env:
-                st.env[n] = self.havoc_like(st.env[n], n)
+                old_ = st.env[n]
+                st.env[n] = self.havoc_like(old_, n)
+                if id(old_) in self.borrowed:
+                    # a name that holds a caller-owned array on entry may still hold that very object in a later iteration
+                    self.borrowed[id(st.env[n])] = (self.borrowed[id(old_)][0], st.env[n])
         for path in sorted(_modified_attrs(node.body)):
             self.havoc_attr_path(path, st, ctx)
         self.havoc_loop_frame(node.body + node.orelse, st, ctx)
